@@ -4,6 +4,7 @@ S1  parameter wiring: every parameter (every element of a single array parameter
     size_in_bits of its type, and is bound to exactly that many consecutive fresh wires, numbered from 2
 S2  literal inference keeps types and wires together: constrain_type pushes the expected type into every child that shares the
     node's type (operands, branches, clause bodies, block tail, literal elements) before it overwrites the node's own type
+S7  cross-reference: forward references between const definitions are rejected (C17-T9)
 S6  no integer logarithm (panics on 0) of a size in compile.rs without a dominating zero test / clamp
 S5  constant-filled vectors returned by an expression arm are never sized by a Type constructed on the spot (a literal's suffix)
 S4  cross-reference: rows of a join are truncated to their own element width (C13-J6), else the value is wider than its type
@@ -342,5 +343,17 @@ def rule_s6(ctx):
     return res
 
 
+def rule_s7(ctx):
+    """Cross-reference: a const that mentions a later const is rejected by the checker (C17-T9), or the compiler panics on an accepted program."""
+    from . import C17
+    res = RuleResult("S7", "forward references between const definitions are rejected by the checker (cross-reference to C17-T9)")
+    t9 = C17.rule_t9(ctx)
+    for x in t9.findings:
+        res.bad(Finding("S7", x.fn, x.site, x.message, x.span))
+    if not t9.findings:
+        res.ok({"verdict": "C17-T9 holds: const expressions only see the consts defined before them"})
+    return res
+
+
 def run(ctx):
-    return ctx.run_rules([rule_s1, rule_s2, rule_s3, rule_s4, rule_s5, rule_s6])
+    return ctx.run_rules([rule_s1, rule_s2, rule_s3, rule_s4, rule_s5, rule_s6, rule_s7])
